@@ -42,6 +42,7 @@ type Frame struct {
 	pendingArgLocs map[int]*Loc // interior-address arguments of the call being translated
 	argLocsUsed    bool         // the callee was inlined and bound them
 	curRangeIdx  *ssa.Alloc // hidden index of the loop whose invariants are being evaluated
+	curRange     *ssa.Range // map range of the loop whose invariants are being evaluated (visited(k))
 	cellAlloc    map[*ssa.Alloc]bool
 	params       []Term
 	entry        *State
